@@ -9,6 +9,8 @@ on the full stacked arrays, compared element-wise with NumPy / the real pb_bss f
 import numpy as np
 
 from .. import tensor_util as tu
+from .. import posterior_util as ppu
+import contextlib
 from ..core import Fail, Skip, oracle
 from ..lean import run_driver
 
@@ -82,7 +84,8 @@ RTOL_SOLVER = 1e-5   # Bingham eigenvalues come out of scipy.optimize.least_squa
 
 
 # ----------------------------------------------------------------------------- adapters around the real classes
-def _fit_dist(kind, y, saliency, trainers):
+def _fit_dist(kind, y, saliency, trainers, opts=None):
+    opts = opts or {}
     if kind.startswith('gauss-'):
         return G.GaussianTrainer().fit(y, saliency=saliency, covariance_type=kind.split('-')[1])
     if kind == 'cgauss':
@@ -93,7 +96,7 @@ def _fit_dist(kind, y, saliency, trainers):
         return trainers.setdefault('watson', CW_.ComplexWatsonTrainer()).fit(y, saliency=saliency)
     if kind == 'cacg':
         assert saliency is None     # the stand-alone cACG trainer implements saliency=None only
-        return CACG_.ComplexAngularCentralGaussianTrainer().fit(y, iterations=3)
+        return CACG_.ComplexAngularCentralGaussianTrainer().fit(y, iterations=3, **opts)
     if kind == 'bingham':
         return trainers.setdefault('bingham', CB_.ComplexBinghamTrainer()).fit(y, saliency=saliency)
     raise ValueError(kind)
@@ -224,23 +227,35 @@ def _take(x, idx):
 
 # ----------------------------------------------------------------------------- oracles on the real code
 @oracle
-def trainer_slices(kind, y, saliency):
-    """<Distribution>Trainer().fit on a stack == fit on every slice alone (parameters, then log_pdf of the slice)"""
+def trainer_slices(kind, y, saliency, opts=None):
+    """<Distribution>Trainer().fit on a stack == fit on every slice alone (parameters, then log_pdf of the slice);
+    `opts`: non-default trainer options (cACG: covariance_norm, eigenvalue_floor)"""
     lead = y.shape[:-2]
     trainers = {}
     alone = {}
-    for idx in np.ndindex(*lead):
-        try:
-            alone[idx] = _fit_dist(kind, y[idx].copy(order='K'), _take(saliency, idx), trainers)
-        except (AssertionError, np.linalg.LinAlgError, ValueError, FloatingPointError) as e:
-            return Skip(f'slice alone raises {type(e).__name__} ({kind})')
+    # Bingham: the bounded least-squares solver inside the M-step is an external (DESIGN.md 2.1); its values are recorded
+    # while the slices are fitted alone and replayed for matching inputs in the stacked fit, so that the two runs can be
+    # compared to rounding (1e-9) instead of to the solver's own tolerance (1e-5)
+    tape = ppu.BinghamSolverTape() if kind == 'bingham' else None
+    rec = tape.record() if tape else contextlib.nullcontext()
+    with rec:
+        for idx in np.ndindex(*lead):
+            try:
+                alone[idx] = _fit_dist(kind, y[idx].copy(order='K'), _take(saliency, idx), trainers, opts)
+            except (AssertionError, np.linalg.LinAlgError, ValueError, FloatingPointError) as e:
+                return Skip(f'slice alone raises {type(e).__name__} ({kind})')
     try:
-        stacked = _fit_dist(kind, y.copy(order='K'), saliency, trainers)
+        with (tape.replay(1) if tape else contextlib.nullcontext()):
+            stacked = _fit_dist(kind, y.copy(order='K'), saliency, trainers, opts)
+    except ppu.TapeMismatch as e:
+        return Fail('bingham:stacked-scatter-eigenvalues', f'bingham trainer, leading shape {lead}: {e}')
     except Exception as e:  # noqa
         return Fail(f'{kind}:stacked-fit-raises-{type(e).__name__}',
                     f'{kind} trainer: every slice fits alone, the stack of leading shape {lead} raises {type(e).__name__}: {e}')
     for idx in np.ndindex(*lead):
         factor = min(_cond_factor(kind, alone[idx]) * 100.0, 1e5) if kind == 'cacg' else 1.0   # 3 fixed-point iterations
+        if tape:
+            factor = 1e-3        # solver values replayed: RTOL_SOLVER * 1e-3 = 1e-8
         bad = _compare_fields(kind, stacked, alone[idx], idx, loosen=factor)
         if bad:
             return Fail(f'{kind}:fit:{bad[0]}', f'{kind} trainer, leading shape {lead}: field {bad[0]}: {bad[1]}')
@@ -262,6 +277,28 @@ def trainer_slices(kind, y, saliency):
         if not ok:
             return Fail(f'{kind}:fit:log_pdf', f'{kind}: log_pdf of the fitted stack at {idx} differs from the stand-alone '
                         f'model ({err:.3g} relative; shapes {np.shape(lp)} vs {np.shape(want[idx])})')
+
+
+@oracle
+def from_covariance_slices(covariance, covariance_norm, eigenvalue_floor):
+    """ComplexAngularCentralGaussian.from_covariance on a stack of covariance matrices == on every matrix alone
+    (every covariance_norm option, floors that do clip)"""
+    lead = covariance.shape[:-2]
+    norm = {'eigenvalue': 'eigenvalue', 'trace': 'trace', 'none': False}[covariance_norm]
+    try:
+        stacked = CACG_.ComplexAngularCentralGaussian.from_covariance(covariance.copy(order='K'), covariance_norm=norm,
+                                                                      eigenvalue_floor=eigenvalue_floor)
+    except (AssertionError, np.linalg.LinAlgError) as e:
+        return Skip(f'stack raises {type(e).__name__}')
+    for idx in np.ndindex(*lead):
+        alone = CACG_.ComplexAngularCentralGaussian.from_covariance(covariance[idx].copy(order='K'), covariance_norm=norm,
+                                                                    eigenvalue_floor=eigenvalue_floor)
+        a, b = np.sort(stacked.covariance_eigenvalues[idx]), np.sort(alone.covariance_eigenvalues)
+        ok, err = tu.close(a, b, 1e-9)
+        if not ok:
+            return Fail('cacg:from_covariance:eigenvalues',
+                        f'from_covariance(covariance_norm={norm!r}, eigenvalue_floor={eigenvalue_floor}): eigenvalues at '
+                        f'{idx} of the stack {lead} are {a.tolist()}, alone {b.tolist()}')
 
 
 def _slice_params(p, idx):
@@ -337,8 +374,9 @@ def _wca(w):
     return {'tuple': (-1,), 'list': [-1], 'int': -1, 'uniform': -2}[w]
 
 
-def _mix_fit(kind, trainer, y, init, saliency, iterations, wca):
+def _mix_fit(kind, trainer, y, init, saliency, iterations, wca, opts=None):
     kw = dict(initialization=init, iterations=iterations, saliency=saliency, weight_constant_axis=_wca(wca))
+    kw.update(opts or {})
     if kind.startswith('gmm-'):
         kw['covariance_type'] = kind.split('-')[1]
     return trainer.fit(y, **kw)
@@ -410,7 +448,7 @@ def _compare_mixtures(kind, stacked, alone, idx, y_stack_pred, y_alone, wca, tol
 
 
 @oracle
-def mixture_slices(kind, y, initialization, saliency, iterations, wca):
+def mixture_slices(kind, y, initialization, saliency, iterations, wca, opts=None):
     """<Mixture>Trainer().fit(stack, per-slice weights) == fit of every slice alone (weights, components, posteriors).
 
     One iteration (one M-step + E-step) is compared tightly.  For several iterations the E-step of the final stacked
@@ -423,12 +461,12 @@ def mixture_slices(kind, y, initialization, saliency, iterations, wca):
     alone = {}
     for idx in np.ndindex(*lead):
         try:
-            alone[idx] = _mix_fit(kind, trainer, y[idx].copy(order='K'), initialization[idx].copy(order='K'), _take(saliency, idx), iterations, wca)
+            alone[idx] = _mix_fit(kind, trainer, y[idx].copy(order='K'), initialization[idx].copy(order='K'), _take(saliency, idx), iterations, wca, opts)
             alone[idx].predict(y[idx])
         except (AssertionError, np.linalg.LinAlgError, ValueError, FloatingPointError) as e:
             return Skip(f'slice alone raises {type(e).__name__} ({kind})')
     try:
-        stacked = _mix_fit(kind, trainer, y.copy(order='K'), initialization.copy(order='K'), saliency, iterations, wca)
+        stacked = _mix_fit(kind, trainer, y.copy(order='K'), initialization.copy(order='K'), saliency, iterations, wca, opts)
         pred = stacked.predict(y)
     except Exception as e:  # noqa
         return Fail(f'{kind}:stacked-fit-raises-{type(e).__name__}',
@@ -506,7 +544,7 @@ class _SliceView:
 
 
 # ----------------------------------------------------------------------------- generators
-DEGENERATE = ['none', 'none', 'none', 'zero-frame', 'dup-frames', 'huge-slice', 'tiny-slice', 'equal-slices']
+DEGENERATE = ['none', 'none', 'none', 'zero-frame', 'dup-frames', 'huge-slice', 'tiny-slice', 'equal-slices', 'near-equal-slices']
 
 
 def _gen_y(rng, kind, lead, N, D, degenerate='none'):
@@ -525,6 +563,12 @@ def _gen_y(rng, kind, lead, N, D, degenerate='none'):
         y[idx] *= 1e-150
     elif degenerate == 'equal-slices':
         y[...] = y[idx]
+    elif degenerate == 'near-equal-slices':
+        # neighbouring problems that agree to ~6 digits but are not identical (adjacent frequency bins): anything keyed
+        # on rounded statistics would share one result between them
+        base = y[idx].copy()
+        for j in np.ndindex(*lead):
+            y[j] = base * (1 + 2e-6 * rng.normal(size=base.shape)) if j != idx else base
     return y
 
 
@@ -639,7 +683,23 @@ def search(ctx):
             ctx.count(f'lead-ndim-{len(lead)}')
             ctx.count(f'degenerate-{deg}')
             ctx.count('lead-with-singleton' if 1 in lead else 'lead-without-singleton')
-            ok = ctx.run(trainer_slices, kind=kind, y=y, saliency=sal)
+            opts = None
+            if kind == 'cacg' and rng.random() < 0.7:
+                opts = {'covariance_norm': ['eigenvalue', 'trace', False][int(rng.integers(3))],
+                        'eigenvalue_floor': float(rng.choice([1e-10, 1e-2, 0.2]))}
+                ctx.count(f'cacg-options:{opts["covariance_norm"]}:{opts["eigenvalue_floor"]}')
+            ok = ctx.run(trainer_slices, kind=kind, y=y, saliency=sal, opts=opts)
+            if kind == 'cacg':
+                # stack of covariance matrices with very different scales and ranks per slice
+                cl = tu.lead_shape(rng, max_total=cap)
+                A = (rng.normal(size=cl + (D, D)) + 1j * rng.normal(size=cl + (D, D))) \
+                    * 10.0 ** rng.uniform(-2, 2, size=cl + (1, 1))
+                if rng.random() < 0.5:
+                    A[..., :, int(rng.integers(1, D)):] = 0       # rank-deficient slices: the floor clips
+                cov = A @ np.conj(np.swapaxes(A, -1, -2))
+                ctx.run(from_covariance_slices, covariance=cov,
+                        covariance_norm=str(rng.choice(['eigenvalue', 'trace', 'none'])),
+                        eigenvalue_floor=float(rng.choice([1e-10, 1e-2, 0.2])))
             if i == 0:
                 ctx.sample({'oracle': 'trainer_slices', 'kind': kind, 'lead': list(lead), 'N': N, 'D': D,
                             'saliency': sal is not None, 'held': ok})
@@ -675,7 +735,13 @@ def search(ctx):
             wca = str(rng.choice(['tuple', 'tuple', 'int', 'list', 'uniform']))
             ctx.count(f'mixture-{kind}-it{iterations}-{wca}')
             ctx.count(f'mixture-lead-ndim-{len(lead)}')
-            ok = ctx.run(mixture_slices, kind=kind, y=y, initialization=init, saliency=sal, iterations=iterations, wca=wca)
+            mopts = None
+            if kind == 'cacgmm' and rng.random() < 0.6:
+                mopts = {'covariance_norm': ['eigenvalue', 'trace', False][int(rng.integers(3))],
+                         'eigenvalue_floor': float(rng.choice([1e-10, 1e-2]))}
+                ctx.count(f'cacgmm-options:{mopts["covariance_norm"]}:{mopts["eigenvalue_floor"]}')
+            ok = ctx.run(mixture_slices, kind=kind, y=y, initialization=init, saliency=sal, iterations=iterations, wca=wca,
+                         opts=mopts)
             if i == 0:
                 ctx.sample({'oracle': 'mixture_slices', 'kind': kind, 'lead': list(lead), 'K': K, 'N': N, 'D': D,
                             'iterations': iterations, 'weight_constant_axis': wca, 'held': ok})
